@@ -4,6 +4,7 @@ import (
 	"fmt"
 	"math/big"
 	"go/types"
+	"os"
 	"strings"
 	"unicode/utf8"
 
@@ -1078,6 +1079,9 @@ func (in *Interp) assert(c *term.Term, label string) {
 		a.Verdict = "unknown"
 	}
 	in.Asserts = append(in.Asserts, a)
+	if debugOn {
+		fmt.Fprintf(os.Stderr, "assert path=%d %q %s %s %dms nodes=%d\n", in.pathID, label, a.Verdict, a.Solver, a.Ms, a.PCSize)
+	}
 	in.addPC(c)
 }
 
